@@ -12,7 +12,7 @@ use std::sync::OnceLock;
 
 const RULE: &str = "planar probe triangles (3 orientations, size 10^U(-4,-2) x rho capped at 0.05 rho and at half the distance \
 to the nearest seam so that they never straddle one) centred on (a) interior points of real cells r = 2..29 and (b) \
-interior points of the parts of resolution 2-4 cells that lie beyond a face edge (the reflected margin cells reach \
+interior points of the parts of resolution 2-6 cells that lie beyond a face edge (the reflected margin cells reach \
 into), on every face. Oracle: area on the sphere of the image region (each edge subdivided 32 times before \
 unprojection, independent fan integrator) / planar area == 4 pi / (12 face areas) to 1e-4. non-trivial = centre within \
 0.02 of a seam, edge, vertex or face centre, or in the reflected margin; distinct by the probe's bits; bucket coverage \
@@ -59,12 +59,12 @@ fn edge_coord(q: P2) -> f64 {
     (q[0] * q[0] + q[1] * q[1]).sqrt() * rel.cos()
 }
 
-/// Cells of resolution 2..4 with at least one corner beyond a face edge, with that corner index.
+/// Cells of resolution 2..6 with at least one corner beyond a face edge, with that corner index.
 fn margin_cells() -> &'static Vec<(Cell, usize)> {
     static M: OnceLock<Vec<(Cell, usize)>> = OnceLock::new();
     M.get_or_init(|| {
         let mut out = Vec::new();
-        for res in 2..=4 {
+        for res in 2..=6 {
             let n = codec::num_cells(res) as u64;
             for i in 0..n {
                 let c = gen::cell_by_index(res, i);
@@ -83,7 +83,32 @@ fn margin_cells() -> &'static Vec<(Cell, usize)> {
 
 fn check_case(case: &Case, st: &mut Stats) -> Result<(), String> {
     // centre point
-    let (cell, centre, in_margin_src) = if case.margin {
+    let (cell, centre, in_margin_src) = if case.margin && case.margin_pick % 3 == 0 {
+        // the margin next to a face *corner*: the cell found at a dodecahedron vertex (any resolution), and the
+        // part of it that lies beyond a face edge
+        let fr = gen::frame();
+        let (vtx, _) = fr.vertices[pick_index(case.margin_pick, 20)];
+        let res = case.cell.res.max(2);
+        let size = (4.0 * std::f64::consts::PI / codec::num_cells(res) as f64).sqrt();
+        // a point within a cell size or so of the vertex
+        let q0 = offset_point(vtx, size * 1.5 * (case.w[1] - 0.5), size * 1.5 * (case.w[2] - 0.5));
+        let (lon, lat) = lonlat_of_vec(q0);
+        let id = a5::lonlat_to_cell(api::lonlat(lon, lat.clamp(-90.0, 90.0)), res).map_err(|e| format!("lonlat_to_cell failed: {}", e))?;
+        let c = codec::decode(id).ok_or("non-canonical cell from lookup")?;
+        let p = api::pentagon(&c)?;
+        let beyond: Vec<usize> = (0..p.len()).filter(|&k| edge_coord(p[k]) > R_EDGE).collect();
+        if beyond.is_empty() {
+            st.hit("skipped:vertex-cell-has-no-corner-beyond-the-edge");
+            return Ok(());
+        }
+        let k = beyond[(case.margin_pick as usize / 3) % beyond.len()];
+        let cx = p.iter().map(|v| v[0]).sum::<f64>() / p.len() as f64;
+        let cy = p.iter().map(|v| v[1]).sum::<f64>() / p.len() as f64;
+        let t = 0.02 + 0.4 * case.w[0];
+        let q = [p[k][0] + t * (cx - p[k][0]), p[k][1] + t * (cy - p[k][1])];
+        st.hit("source:margin-of-cells-at-dodecahedron-vertices");
+        (c, q, true)
+    } else if case.margin {
         let m = margin_cells();
         if m.is_empty() {
             return Err("no cell of resolution 2-4 reaches beyond a face edge (margin enumeration empty)".into());
@@ -93,7 +118,8 @@ fn check_case(case: &Case, st: &mut Stats) -> Result<(), String> {
         // a point near corner k, inside the pentagon: corner + t (centroid - corner), t small
         let cx = p.iter().map(|v| v[0]).sum::<f64>() / p.len() as f64;
         let cy = p.iter().map(|v| v[1]).sum::<f64>() / p.len() as f64;
-        let t = 0.02 + 0.5 * case.w[0];
+        // from very close to the corner (the tip that reaches furthest beyond the edge) to half-way in
+        let t = if case.w[3] < 0.5 { 0.02 + 0.5 * case.w[0] } else { 10f64.powf(-3.0 + 2.6 * case.w[0]) };
         let q = [p[k][0] + t * (cx - p[k][0]), p[k][1] + t * (cy - p[k][1])];
         (c, q, true)
     } else {
@@ -121,7 +147,7 @@ fn check_case(case: &Case, st: &mut Stats) -> Result<(), String> {
     let seam = d_ray.min(d_edge);
     let mut h = 10f64.powf(case.log_h) * rho;
     h = h.min(0.05 * rho).min(0.5 * seam);
-    if !(h >= 1e-7) {
+    if !(h >= 3e-8) {
         st.hit("skipped:too-close-to-a-seam-for-a-probe");
         return Ok(());
     }
@@ -166,7 +192,7 @@ fn check_case(case: &Case, st: &mut Stats) -> Result<(), String> {
     }
     st.hit(&format!("bucket:f{:02}-s{}-{}", face, sector, if beyond { "margin" } else { "inside" }));
     st.hit(if beyond { "side:reflected-margin" } else { "side:inside-face" });
-    st.hit(if in_margin_src { "source:margin-of-r2-4-cells" } else { "source:real-cell-interior" });
+    st.hit(if in_margin_src { "source:margin-of-r2-6-cells" } else { "source:real-cell-interior" });
     st.hit(&format!("probe-size:1e{:+03}", h.log10().floor() as i32));
     st.sample(nt, || json!({"face": face, "centre": centre, "h": h, "sector": sector, "beyond_edge": beyond, "ratio": ratio, "expected": k, "cell": gen::cell_json(&cell)}));
     Ok(())
@@ -203,7 +229,8 @@ fn seam_probe_from_json(v: &Value) -> Option<SeamProbe> {
 
 fn check_seam_probe(p: &SeamProbe, st: &mut Stats) -> Result<(), String> {
     let h = 10f64.powf(p.log_h);
-    let gap = 10f64.powf(p.log_gap);
+    // the lowest tenth of the range stands for "exactly on the seam"
+    let gap = if p.log_gap < -12.5 { 0.0 } else { 10f64.powf(p.log_gap) };
     // seam line: point o on it, unit direction u along it, unit normal n pointing to the probe's side
     let (o, u, mut n, label) = if p.seam < 10 {
         let g = std::f64::consts::PI / 5.0 * p.seam as f64;
@@ -256,7 +283,7 @@ fn check_seam_probe(p: &SeamProbe, st: &mut Stats) -> Result<(), String> {
     }
     st.nontrivial(&(p.face, p.seam, o[0].to_bits(), p.log_gap.to_bits(), p.log_h.to_bits()));
     st.hit(&format!("seam-probe:{}", label));
-    st.hit(&format!("seam-probe-gap:1e{:+03}", p.log_gap.floor() as i32));
+    st.hit(&format!("seam-probe-gap:{}", if gap == 0.0 { "0(on the seam)".to_string() } else { format!("1e{:+03}", p.log_gap.floor() as i32) }));
     st.sample(true, || json!({"seam_probe": seam_probe_json(p), "ratio": ratio}));
     Ok(())
 }
